@@ -81,6 +81,7 @@ package node
 //@   requires @burn_parses validFA(GlobalBurnAddress)
 //@   requires @nonempty len(txBatch.Transactions) > 0
 //@   requires @validated validatedAt(txBatch, wrap_int32(currentHeight))
+//@   requires @no_conversion_into_PEG_from_2_0{C13} currentHeight >= config.V20HeightActivation ==> (forall k int :: 0 <= k && k < len(txBatch.Transactions) ==> txBatch.Transactions[k].Conversion != fat2.PTickerPEG)
 //@   requires @conversions_need_rates (exists k int :: 0 <= k && k < len(txBatch.Transactions) && isConv(txBatch.Transactions[k])) ==> rates != nil && len(rates) > 0
 //@   requires @status statusInv(Lexec, Lrel, Lhist) && Lhist[*txBatch.Entry.Hash] && currentHeight > 0
 //@   requires @rates_of_executing_block (exists k int :: 0 <= k && k < len(txBatch.Transactions) && isConv(txBatch.Transactions[k])) ==> ratesOf(rates, Lrate, currentHeight) && Lrated[currentHeight]
@@ -96,6 +97,8 @@ package node
 //@   ensures @never_negative result == nil ==> balNonNeg(Lbal)
 //@   ensures @rel_frame result == nil || isRejectErr(result) ==> (forall h factom.Bytes32 :: h != H ==> (Lrel[h] <==> old(Lrel)[h]))
 //@   ensures @nil_means_applied{C17} result == nil ==> Lrel[H]
+//@   // liveness as safety (C08): with a healthy database the admission phase can only end in nil or one of the reject codes the callers tolerate
+//@   ensures @admission_fails_only_with_reject_codes{C08} envHealthy && calls("recordBatch") == old(calls("recordBatch")) ==> result == nil || isRejectErr(result)
 //@   ensures @nil_unapplied_only_if_unconvertible result == nil && !Lrel[H] ==> (exists k int :: 0 <= k && k < len(txs) && !old(convertible(txs, k, currentHeight, rates, averages)))
 //@   loop 1 invariant @range 0 <= iter && iter <= len(txs)
 //@   loop 1 invariant @admissible forall k int :: 0 <= k && k < iter ==> old(admissible(txs, k, currentHeight, rates)) && old(convertible(txs, k, currentHeight, rates, averages))
@@ -131,6 +134,8 @@ package node
 //@ // avgOf(m, h): m holds the per-asset averages over the averaging window that ends at height h
 //@ spec func avgOf(m gomap[fat2.PTicker]uint64, h int) bool
 //@
+//@ // The averages are a function of the recorded rates and the height only (avgOf), whatever the cache held before (C09):
+//@ // assumed here, checked up to a bound on the real code by /verif/conformance/node/zz_conf_averages_test.go
 //@ func (*Pegnetd).GetPegNetRateAverages
 //@   trusted
 //@   modifies d.LastAveragesData, d.LastAverages, d.LastAveragesHeight
@@ -147,7 +152,7 @@ package node
 //@     forall e factom.Bytes32 :: 0 <= hold[e] && hold[e] < h && (forall x int :: hold[e] < x && x < h ==> !rated[x]) ==> !rel[e]
 //@
 //@ func (*Pegnetd).ApplyTransactionBatchesInHolding
-//@   props C06 C07 C13 C17 C10 C16
+//@   props C06 C07 C13 C17 C10 C16 C09
 //@   requires @wellformed d.Pegnet != nil && currentHeight > 0
 //@   requires @block_is_rated rates != nil && len(rates) > 0 && ratesOf(rates, Lrate, currentHeight) && Lrated[currentHeight]
 //@   requires @nonneg balNonNeg(Lbal)
